@@ -1,7 +1,7 @@
 //verif:pkg .
 //verif:use fakes_client
 //verif:use fakes_mcp
-//verif:bound one adversarial frame - thorough: followed by a second one of the concrete kinds on the legacy stream - (an arbitrary JSON document of depth <= 2 that is not the pending call's own answer, truncated JSON, a line of 3 printable ASCII bytes starting with an upper-case letter, comments and blank lines, an event without data, empty data, an unexpected endpoint event, id/retry fields only, a well-formed response with an unknown id, with a string id, an error response with a null id; on the GET stream also a 70000-byte frame) placed before, inside or after the valid answer of call 1, followed by a well-formed call 2 and Close; plus the call's own id with an arbitrary result document (depth <= 3) for each of tools/call, tools/list, prompts/list, prompts/get, resources/list, resources/read; Streamable client with JSON answers, with SSE answers (with and without a registered notification handler) and on its GET stream, legacy SSE client, stdio client transport
+//verif:bound one adversarial frame - thorough: followed by a second one of the concrete kinds on the legacy stream - (an arbitrary JSON document of depth <= 2 that is not the pending call's own answer, truncated JSON, a line of 3 printable ASCII bytes starting with an upper-case letter, comments and blank lines, an event without data, empty data, an unexpected endpoint event, id/retry fields only, a well-formed response with an unknown id, with a string id, an error response with a null id; on the GET stream also a 70000-byte frame) placed before, inside or after the valid answer of call 1, followed by a well-formed call 2 and Close; plus the call's own id with an arbitrary result document (depth <= 3) for each of tools/call, tools/list, prompts/list, prompts/get, resources/list, resources/read; a frame bearing the call's own id that is no answer (server request with a colliding id, id-only object) before the real answer, for each of the six operations; Streamable client with JSON answers, with SSE answers (with and without a registered notification handler) and on its GET stream, legacy SSE client, stdio client transport
 //verif:assume several adversarial frames in one exchange, frames split across reads at arbitrary byte offsets and CPU-time measurement are outside the bound; a goroutine that re-reads a sticky decoder error three times is taken to spin forever
 package mcp
 
@@ -436,5 +436,96 @@ func H_C07_stdio_client() {
 	}
 	t.closed.Store(true)
 	out.end()
+	vReach("end")
+}
+
+// c07Real: a well-formed result for operation op carrying the marker "real", and a probe that recognises it.
+func c07Real(op int) string {
+	switch op {
+	case 0:
+		return `{"content":[{"type":"text","text":"real"}]}`
+	case 1:
+		return `{"tools":[{"name":"real","inputSchema":{"type":"object"}}]}`
+	case 2:
+		return `{"prompts":[{"name":"real"}]}`
+	case 3:
+		return `{"description":"real","messages":[]}`
+	case 4:
+		return `{"resources":[{"uri":"res://real","name":"real"}]}`
+	}
+	return `{"contents":[{"uri":"res://real","text":"real"}]}`
+}
+
+func c07OpMarker(c *Client, ctx context.Context, op int) (string, error) {
+	switch op {
+	case 0:
+		r, err := c.CallTool(ctx, &CallToolRequest{Params: CallToolParams{Name: "t"}})
+		return c07TextOf(r), err
+	case 1:
+		r, err := c.ListTools(ctx, &ListToolsRequest{})
+		if err == nil && r != nil && len(r.Tools) == 1 {
+			return r.Tools[0].Name, nil
+		}
+		return "", err
+	case 2:
+		r, err := c.ListPrompts(ctx, &ListPromptsRequest{})
+		if err == nil && r != nil && len(r.Prompts) == 1 {
+			return r.Prompts[0].Name, nil
+		}
+		return "", err
+	case 3:
+		r, err := c.GetPrompt(ctx, &GetPromptRequest{})
+		if err == nil && r != nil {
+			return r.Description, nil
+		}
+		return "", err
+	case 4:
+		r, err := c.ListResources(ctx, &ListResourcesRequest{})
+		if err == nil && r != nil && len(r.Resources) == 1 {
+			return r.Resources[0].Name, nil
+		}
+		return "", err
+	}
+	r, err := c.ReadResource(ctx, &ReadResourceRequest{})
+	if err == nil && r != nil && len(r.Contents) == 1 {
+		if tc, ok := r.Contents[0].(TextResourceContents); ok {
+			return tc.Text, nil
+		}
+	}
+	return "", err
+}
+
+// H_C07_streamable_own_id_not_an_answer: before the real answer the stream carries a frame that bears the call's
+// own id but is no answer (a server-issued request with a colliding id, or an object with the id only). The
+// call returns an error or the real answer - never an empty success.
+func H_C07_streamable_own_id_not_an_answer() {
+	op := vChoice("op", 6)
+	shape := vChoice("shape", 3)
+	withHandler := vChoice("handler", 2) == 1
+	net := &verifNet{}
+	net.respond = func(s *verifSent) (*http.Response, error) {
+		id := c07ReqID(s)
+		var first map[string]interface{}
+		switch shape {
+		case 0:
+			first = map[string]interface{}{"jsonrpc": "2.0", "id": id, "method": "ping"}
+		case 1:
+			first = map[string]interface{}{"jsonrpc": "2.0", "id": id}
+		default:
+			first = map[string]interface{}{"jsonrpc": "2.0", "id": id, "method": "roots/list", "params": map[string]interface{}{}}
+		}
+		fb, _ := json.Marshal(first)
+		real, _ := json.Marshal(map[string]interface{}{"jsonrpc": "2.0", "id": id, "result": json.RawMessage(c07Real(op))})
+		return verifResp(200, []byte("data: "+string(fb)+"\n\ndata: "+string(real)+"\n\n"), "Content-Type", "text/event-stream"), nil
+	}
+	c := c07StreamableClient(net)
+	if withHandler {
+		c.RegisterNotificationHandler("n/x", func(n *JSONRPCNotification) error { return nil })
+	}
+	ctx, cancel := context.WithTimeout(context.Background(), 400*time.Millisecond)
+	marker, err := c07OpMarker(c, ctx, op)
+	cancel()
+	vAssert("error-or-the-real-answer-never-an-empty-success", vOr(err != nil, marker == "real"))
+	vAssert("close-succeeds", c.Close() == nil)
 	vReach("end")
 }
